@@ -54,7 +54,8 @@ def normalise(prog):
 class C24(Check):
     id = "C24"
     prop_file = "theories/Properties/Properties_C24.v"
-    theorems = ("C24_accept_sound", "C24_overlimit_rejected", "C24_malformed_rejected", "C24_prefix_counting_refuted")
+    theorems = ("C24_accept_sound", "C24_overlimit_rejected", "C24_malformed_rejected", "C24_prefix_counting_refuted",
+                "C24_ldef_counted_is_needed", "C24_ternary_ldef_counting_refuted")
     comp = "ptgcheck"
     extract_file = "theories/Extract/Extract_PTGCheck.v"
     extracted = ("ptgcheck",)
@@ -134,6 +135,9 @@ class C24(Check):
         for total in (20, 21):
             out.append(J.case_text(normalise([(total - 4, [("R", [("i", "u"), ("o", "b", 2, 1, 0), ("o", "b", 1, 0, 0), ("o", "u")])])])))
             out.append(J.case_text(normalise([(total - 3, [("C", [("i", "u"), ("o", "t", 0, 1, 2), ("o", "u")]), ("R", [("i", "u"), ("o", "u")])])])))
+        # a ternary whose TRUE branch introduces more local definitions than its false branch
+        out.append(J.case_text(normalise([(0, [("R", [("i", "u"), ("o", "t", 0, 1, 0), ("o", "b"), ("o", "u")])])])))
+        out.append(J.case_text(normalise([(17, [("C", [("i", "u"), ("o", "t", 2, 1, 0), ("o", "b")]), ("RW", [("i", "u"), ("o", "t")])])])))
         # a ternary whose two branches both reference memory (each branch needs its own accessor function)
         out.append(J.case_text(normalise([(0, [("RW", [("i", "u"), ("o", "m"), ("o", "b")]), ("W", [("o", "m")]), ("R", [("i", "m")])])])))
         # known finding: a CTL gather (input) dependency with local definitions at both levels
